@@ -65,15 +65,16 @@ Proof.
     unfold bytes in *. cbn [length map] in *. lia.
   - (* map *)
     cbn [rdepth C04.repr].
-    set (dec := fun e : value * value => (fst e, (repr (fst e) (ind + 1), repr (snd e) (ind + 2)))).
-    rewrite (isort_map (@key_lt rk value) (@key_lt rk (bytes * bytes)) dec (fun a b => eq_refl) m).
-    set (sm := isort (@key_lt rk value) m).
+    pose proof (isort_dec rk (fun k : value => repr k (ind + 1))
+                  (fun e : value * value => repr (snd e) (ind + 2)) m) as E1.
+    cbn beta in E1. rewrite E1. clear E1.
+    set (sm := sorted_entries rk (fun k : value => repr k (ind + 1)) m).
     rewrite (fold_left_map (fun b y => lb_write ind b y)
-               (fun e : value * (bytes * bytes) => mb_pair (fst (snd e)) (ind + 2) (snd (snd e))) (map dec sm)).
-    rewrite map_map.
-    change (map (fun x : value * value => mb_pair (fst (snd (dec x))) (ind + 2) (snd (snd (dec x)))) sm)
+               (fun e : value * (bytes * bytes) => mb_pair (fst (snd e)) (ind + 2) (snd (snd e)))).
+    rewrite map_map. cbn [fst snd].
+    change (map (fun x : value * value => mb_pair (repr (fst x) (ind + 1)) (ind + 2) (repr (snd x) (ind + 2))) sm)
       with (map (pair_text is_print fmtF fmtE rk ind) sm).
-    assert (Pm : Permutation m sm) by apply isort_perm.
+    assert (Pm : Permutation m sm) by apply sorted_entries_perm.
     set (L := fun e : value * value => length (pair_text is_print fmtF fmtE rk ind e)).
     destruct (depth_sum (fun e => Nat.max (rdepth (fst e)) (rdepth (snd e))) L m) as [D1 _].
     { intros a Ha. cbn [okv] in Hok. rewrite forallb_forall in Hok. specialize (Hok a Ha).
@@ -113,7 +114,7 @@ Hypothesis HS : C05_float_proofs.contract_S pf fmtF fmtE.
 
 (* the whole argument of put: one value, nothing left, for read_expr's own fuel *)
 Theorem read_expr_repr v ind : okv v = true ->
-  read_expr is_print pf (repr is_print fmtF fmtE rk v ind) = EVal (norm pf rk v).
+  read_expr is_print pf (repr is_print fmtF fmtE rk v ind) = EVal (norm is_print pf fmtF fmtE rk v ind).
 Proof.
   intros Hok. unfold read_expr.
   pose proof (repr_reads_back is_print pf fmtF fmtE rk HS v Hok ind CNormal []
